@@ -15,9 +15,12 @@ PROP = 'C09'
 def gate_case(item):
     k, slots, nested, log, fail, plan = item
     steal = False
-    if isinstance(log, str):
+    lockwait = False
+    if isinstance(log, str) and log.startswith('lockwait'):
+        lockwait, log, nested = int(log[8:] or 1), True, True
+    elif isinstance(log, str):
         steal, log = True, False
-    g = gate.GateRun(k, slots, nested=nested, log=log, fail=fail, steal=steal)
+    g = gate.GateRun(k, slots, nested=nested, log=log, fail=fail, steal=steal, lockwait=lockwait)
     try:
         r = g.run(plan)
     finally:
@@ -47,8 +50,8 @@ def gate_case(item):
     first_unplanned = r['steps'][len(plan)][0] if len(r['steps']) > len(plan) else None
     delivered = [tuple(s[1]) for s in r['steps']]
     res = dict(verdict='violated' if anoms else 'held', nontrivial=len(r['steps']) >= 2,
-               shape=common.shash([k, slots, nested, log, steal, sorted(fail), delivered]),
-               sample=dict(kind='gate', k=k, slots=slots, nested=nested, log=log, steal=steal, fail=sorted(fail), plan=plan, delivered=delivered, rc=r['rc']),
+               shape=common.shash([k, slots, nested, log, steal, lockwait, sorted(fail), delivered]),
+               sample=dict(kind='gate', k=k, slots=slots, nested=nested, log=log, steal=steal, lockwait=lockwait, fail=sorted(fail), plan=plan, delivered=delivered, rc=r['rc']),
                obs=dict(gate_paths=1, gate_steps=len(r['steps'])), sets=dict(ready_sets=sorted(ready)),
                avail=first_unplanned, item=item)
     if anoms:
@@ -161,6 +164,20 @@ def stress_case(item):
             r, _ = pj.run(['redo', '-j2', 'top'], extra=({} if log else {'REDO_LOG': '0'}), timeout=hold + 120, stuck_after=hold + 60)
             rs = [r]
             expect_files = ['top', 'a', 'b', 'x', 'h1', 'h2']
+        elif kind == 'cheatstop':
+            # as 'cheat', while redo processes are stopped and continued at random (descheduling injection): a process that is
+            # continued finds a token and its expired wait timer in the same wake-up
+            _, shape, slots, own, seed = item
+            from . import c08
+            files, top = c08.make_graph(shape, 4, rnd, 'ok')
+            pj = scen.Project(files, 'c09cst')
+            st = ('waiters', seed, shape, slots) if seed % 2 else seed
+            if own:
+                r, _ = pj.run(['redo', '-j%d' % slots, top], stutter=st, stuck_after=8.0)
+            else:
+                r, _ = pj.run(['redo-ifchange', top], slots=slots, stutter=st, stuck_after=8.0)
+            rs = [r]
+            expect_files = [top, 'a']
         elif kind == 'cheat':
             # the followed job waits for a locked target, finds every slot taken afterwards and borrows one; with `redo`
             # (forced) it then starts a job on the borrowed slot
@@ -271,6 +288,8 @@ def stress_items(tier, rnd):
                 for f in ('cheat', 'cheatf'):
                     for rep in range(1 if quick else 5):
                         items.append(('cheat', '%s%d' % (f, nsh), nsh + extra, own, rep))
+                        for srep in range(2 if quick else 6):
+                            items.append(('cheatstop', '%s%d' % (f, nsh), nsh + extra, own, rep * 10 + srep))
     for k in range(12):
         for j in ((3,) if quick else (2, 3, 4)):
             for rep in range(1 if quick else 3):
@@ -288,11 +307,11 @@ def dispatch(item):
 
 
 RULE = ('layer 1 (systematic): a select()-gate in one redo process lets the harness choose, for every wake-up of its event loop, '
-        'which subset of {child i exits, a token arrives, the pending timer expires} is ready; breadth-first over all subsets per '
+        'which subset of {child i exits, a token arrives, the pending timer expires (alone or together with one I/O event)} is ready; breadth-first over all subsets per '
         'step to a depth bound, each path replayed from scratch (k<=3 children, 1-3 job slots, plain and nested one level, with and '
-        'without log capture, with a failing child). layer 2 (stress): fans of 16-120 instant/jittered leaves at -j2..16 with own '
+        'without log capture, with a failing child; lock-wait configurations in which the gated process also asks for a target that another invocation is building, gives its slot away, and has to find one again with nothing running - the only place where the timed token wait and borrowing a slot occur). layer 2 (stress): fans of 16-120 instant/jittered leaves at -j2..16 with own '
         'and inherited jobserver, the same target spelled several times on one command line, a second invocation arriving while a '
-        'target is being built, crossed dependency orders (two shapes, 0-11 quick targets in front), 2-8 contending invocations, the followed job borrowing a slot after a lock hand-over (and starting a job on it), a process waiting more than a minute for a job token while two 75 s jobs hold every slot (thorough), random parallel histories. Oracle: no panic / '
+        'target is being built, crossed dependency orders (two shapes, 0-11 quick targets in front), 2-8 contending invocations, the followed job borrowing a slot after a lock hand-over (and starting a job on it), the same while redo processes are stopped and continued at random (SIGSTOP/SIGCONT descheduling injection), a process waiting more than a minute for a job token while two 75 s jobs hold every slot (thorough), random parallel histories. Oracle: no panic / '
         'abort text or status in any redo process, no confirmed stuck state, exit 0 whenever all scripts succeed, tokens conserved '
         'on gate paths. Non-trivial: gate path with >=2 wake-ups, every stress build. Distinct: hash of scenario parameters and the '
         'delivered event sets.')
@@ -308,10 +327,10 @@ def main(tier):
     budget = 100 if quick else 1100
     rnd = random.Random(common.seed())
     # layer 1
-    cfgs = [(2, 2, False, False, ()), (2, 1, False, False, ()), (2, 3, False, False, ()), (2, 2, False, 'steal', ())]
+    cfgs = [(2, 2, False, False, ()), (2, 1, False, False, ()), (2, 3, False, False, ()), (2, 2, False, 'steal', ()), (2, 2, True, True, ()), (1, 2, True, 'lockwait', ())]
     if not quick:
         cfgs += [(3, 2, False, False, ()), (3, 3, False, False, ()), (2, 2, True, False, ()), (2, 2, False, True, ()),
-                 (2, 2, False, False, (1,)), (3, 2, False, False, (2,)), (3, 1, False, False, ()), (3, 2, True, False, ())]
+                 (2, 2, False, False, (1,)), (3, 2, False, False, (2,)), (3, 1, False, False, ()), (3, 2, True, False, ()), (3, 2, True, True, ()), (2, 1, True, True, ()), (2, 2, True, 'lockwait', ()), (1, 3, True, 'lockwait', ()), (1, 1, True, 'lockwait', ()), (1, 2, True, 'lockwait2', ())]
     gate_layer(col, cfgs, depth=(3 if quick else 4), deadline=t0 + budget * 0.4)
     # layer 2
     items = stress_items(tier, rnd)
